@@ -128,7 +128,7 @@ def tlc(workdir, module, cfg_text, env=None, workers=NCPU, timeout=1800, extra=(
     if deque:
         jvm.append("-Dtlc2.tool.queue.IStateQueue=StateDeque")
     cmd = ["java"] + jvm + ["-cp", JAVA_CP, "tlc2.TLC", "-workers", str(workers), "-metadir", meta,
-                            "-noGenerateSpecTE", "-config", cfg] + list(extra) + [module + ".tla"]
+                            "-noGenerateSpecTE", "-maxSetSize", "60000000", "-config", cfg] + list(extra) + [module + ".tla"]
     e = dict(os.environ)
     e.pop("JAVA_TOOL_OPTIONS", None)
     if env:
